@@ -76,6 +76,7 @@ def dec_fields(tok, wide):
 class Acl(Engine):
     name = 'acl'
     keep_prefix = 1
+    timeout = 1500
 
     # ---- generators ----------------------------------------------------
     def pick_name(self, rng, allow_bad=True):
@@ -131,7 +132,7 @@ class Acl(Engine):
     PACK = 4          # scenarios per case: every case costs one fork of the ASan harness
 
     def gen(self, rng, tier):
-        n = 1600 if tier == 'quick' else 24000
+        n = 1600 if tier == 'quick' else 12000
         packed = []
         for i in range(n):
             packed += self.rt_scenario(rng)
@@ -146,10 +147,10 @@ class Acl(Engine):
         import itertools
         posix = [58, 44, 10, 32, 35, 117, 100, 114, 45, 48, 111]      # : , \n space # u d r - 0 o
         nfs4 = [58, 44, 35, 32, 114, 45]                                  # (tag words are too long to enumerate)
-        maxlen = 3 if tier == 'quick' else 5
         for alpha, want, label in ((posix, 0x100, 'posix'), (nfs4, 0x3c00, 'nfs4')):
             for wide in (False, True):
                 ops = []
+                maxlen = 3 if tier == 'quick' else (4 if wide else 5)
                 for n in range(0, maxlen + 1 if alpha is posix else maxlen):
                     for t in itertools.product(alpha, repeat=n):
                         if len(ops) == 0 or len(ops) % 400 == 0:
@@ -247,7 +248,7 @@ class Acl(Engine):
         return ''.join(t)
 
     def gen_parse(self, rng, tier):
-        n = 3200 if tier == 'quick' else 60000
+        n = 3200 if tier == 'quick' else 30000
         packed = []
         for i in range(n):
             packed += self.parse_scenario(rng)
@@ -263,6 +264,11 @@ class Acl(Engine):
                 ops.append('mode %o' % rng.randrange(0o1000))
             if rng.random() < 0.15:       # parse into an ACL that already has entries
                 ops += (self.nfs4_entries if rng.random() < 0.5 else self.posix_entries)(rng, wide)[:3]
+            if rng.random() < 0.03:      # the same parser behind the pax reader, value at the end of the client's buffer
+                t = self.valid_text(rng, False)
+                if rng.random() < 0.5:
+                    t = ','.join([t] * 40)
+                ops.append(f'{rng.choice(["paxtrunc", "paxcolon"])} {enc(t.encode("utf-8"), False)}')
             for _ in range(rng.choice([1, 1, 2, 3])):
                 nfs4 = rng.random() < 0.45
                 r = rng.random()
